@@ -67,8 +67,9 @@ def verify(sid):
         ok, out = apply_patch(d, os.path.join(sd, "patch.diff"))
         res["applies"] = ok
         if ok:
-            rc, out = sh("cargo build --offline 2>&1 | tail -2 && cargo build --offline --features serde 2>&1 | tail -2", d)
-            res["builds"] = "error" not in out.lower()
+            rc_a, _ = sh("cargo build --offline >/dev/null 2>&1", d)
+            rc_b, _ = sh("cargo build --offline --features serde >/dev/null 2>&1", d)
+            res["builds"] = (rc_a == 0 and rc_b == 0)
             rc, out = sh("cargo test --workspace --no-fail-fast --offline 2>&1 | grep -E '^test result|FAILED|panicked' | head -5", d)
             res["tests"] = out.strip().splitlines()
             res["tests_pass"] = "FAILED" not in out and "136 passed" in out
